@@ -6,6 +6,7 @@
 import FtdcVerif.Gen.Code
 import FtdcVerif.Model.Hdr
 import FtdcVerif.Lemmas.Hdr
+import FtdcVerif.Model.Events
 
 namespace Ftdc.CodeTie
 open Ftdc
@@ -190,8 +191,81 @@ theorem medianEquivalentValue_tie (v : Nat) (hv : v < 2 ^ 63) :
 
 end wf
 
+/-! ### `RecordValues` -/
+
+theorem set_getD_modify (l : List Int) (n : Int) : ∀ (i : Nat), l.set i (l[i]?.getD 0 + n) = l.modify i (· + n) := by
+  induction l with
+  | nil => intro i; simp
+  | cons a t ih =>
+    intro i
+    cases i with
+    | zero => simp
+    | succ j => simp [ih j]
+
+/-- hdr.go's `RecordValues`, translated, is the model's `recordValues` (error = `none`, state unchanged) -/
+theorem RecordValues_tie {h : Hdr.Hist} (wf : Hdr.WF h) (v : Nat) (hv : v < 2 ^ 63) (n : Int) :
+    Gen.Hdr.RecordValues (cfgOf h) v n = (Hdr.recordValues h v n).map cfgOf := by
+  have hnn : ¬ ((v : Int) < 0) := by omega
+  simp only [Gen.Hdr.RecordValues, Hdr.recordValues, countsIndexFor_tie wf v hv, hnn, if_false, Int.toNat_natCast]
+  have hl : (cfgOf h).countsLen = (h.countsLen : Int) := rfl
+  rw [hl]
+  by_cases hc : Hdr.countsIndexFor h v < 0 ∨ (h.countsLen : Int) ≤ Hdr.countsIndexFor h v
+  · simp only [hc, if_true, Option.map_none]
+  · simp only [hc, if_false, Option.map_some]
+    have h0 : ¬ Hdr.countsIndexFor h v < 0 := fun x => hc (Or.inl x)
+    simp only [cfgOf, Gen.Go.set, Gen.Go.index, h0, if_false, Hdr.listModify, List.getD_eq_getElem?_getD, set_getD_modify]
+
 theorem getOffset_tie (count sample metric : Nat) :
     Gen.Util.getOffset count sample metric = ((metric * count + sample : Nat) : Int) := by
   simp [Gen.Util.getOffset]
+
+/-! ### `Performance.Add` (events/performance.go)
+
+The translated function works on ideal integers; Go's `int64` fields wrap.  `concP` reads a model value
+(`BitVec 64` fields) as the integers the Go struct holds, `absP` reduces integers modulo 2^64: the translated
+`Add`, run on the integers and reduced, is the model's wrapping `Perf.add` - addition commutes with the
+reduction, and the id test `in.ID == 0` is decided on an in-range integer. -/
+
+open Ftdc.Events in
+def concP (p : Perf) : Gen.Events.Performance :=
+  { Timestamp := p.ts.toInt, ID := p.id.toInt,
+    Counters := { Number := p.n.toInt, Operations := p.ops.toInt, Size := p.size.toInt, Errors := p.errors.toInt },
+    Timers := { Duration := p.dur.toInt, Total := p.total.toInt },
+    Gauges := { State := p.state.toInt, Workers := p.workers.toInt, Failed := p.failed } }
+
+open Ftdc.Events in
+def absP (g : Gen.Events.Performance) : Perf :=
+  { ts := BitVec.ofInt 64 g.Timestamp, id := BitVec.ofInt 64 g.ID,
+    n := BitVec.ofInt 64 g.Counters.Number, ops := BitVec.ofInt 64 g.Counters.Operations,
+    size := BitVec.ofInt 64 g.Counters.Size, errors := BitVec.ofInt 64 g.Counters.Errors,
+    dur := BitVec.ofInt 64 g.Timers.Duration, total := BitVec.ofInt 64 g.Timers.Total,
+    state := BitVec.ofInt 64 g.Gauges.State, workers := BitVec.ofInt 64 g.Gauges.Workers, failed := g.Gauges.Failed }
+
+theorem ofInt_add_toInt (a b : BitVec 64) : BitVec.ofInt 64 (a.toInt + b.toInt) = a + b := by
+  rw [BitVec.ofInt_add, BitVec.ofInt_toInt, BitVec.ofInt_toInt]
+
+theorem toInt_eq_zero (a : BitVec 64) : a.toInt = 0 ↔ a = 0#64 := by
+  constructor
+  · intro h; have := congrArg (BitVec.ofInt 64) h; simpa [BitVec.ofInt_toInt] using this
+  · intro h; subst h; rfl
+
+open Ftdc.Events in
+theorem Add_tie (p e : Perf) :
+    absP (Gen.Events.Add (concP p) (concP e)).1 = Perf.add p e ∧
+    absP (Gen.Events.Add (concP p) (concP e)).2 = { e with id := nextId p.id e.id } := by
+  unfold Gen.Events.Add
+  by_cases h0 : e.id = 0#64
+  · have h0' : (concP e).ID = 0 := by simp [concP, h0]
+    simp only [h0', if_true]
+    constructor
+    · simp [absP, concP, Perf.add, nextId, h0, ofInt_add_toInt, BitVec.ofInt_toInt]
+      rw [show (1 : Int) = (1#64 : BitVec 64).toInt from rfl, ofInt_add_toInt]
+    · simp [absP, concP, nextId, h0, BitVec.ofInt_toInt]
+      rw [show (1 : Int) = (1#64 : BitVec 64).toInt from rfl, ofInt_add_toInt]
+  · have h0' : ¬ (concP e).ID = 0 := by simp [concP, toInt_eq_zero, h0]
+    simp only [h0', if_false]
+    constructor
+    · simp [absP, concP, Perf.add, nextId, h0, ofInt_add_toInt, BitVec.ofInt_toInt]
+    · simp [absP, concP, nextId, h0, BitVec.ofInt_toInt]
 
 end Ftdc.CodeTie
